@@ -45,3 +45,19 @@ pub proof fn lemma_shl8_or(a: u8, b: u8)
 {
     assert(((a as u16) << 8 | b as u16) == (a as u16) * 256 + (b as u16)) by (bit_vector);
 }
+// ---------------------------------------------------------------------------------------------
+// Rule R18: `<&[u8] as TryInto<&[u8; N]>>::try_into` (the zero-copy reference conversion), named as a function (vstd specifies try_into
+// through its TryFromSpec trait, which cannot be implemented for std's array types from outside):
+//     slice_try_into_array(s) == s.try_into()          (core::array: Ok(the same bytes) iff s.len() == N)
+// ASSUMED in Verus, OBLIGATION of Kani `shim_slice_try_into_array` on the real core.
+// ---------------------------------------------------------------------------------------------
+#[verifier::external_type_specification]
+#[verifier::external_body]
+pub struct ExTryFromSliceError(core::array::TryFromSliceError);
+#[verifier::external_body]
+pub fn slice_try_into_array<'a, const N: usize>(s: &'a [u8]) -> (r: Result<&'a [u8; N], core::array::TryFromSliceError>)
+    ensures s@.len() == N ==> (r is Ok && r->Ok_0@ =~= s@),
+            s@.len() != N ==> r is Err,
+{
+    s.try_into()
+}
